@@ -204,6 +204,15 @@ fn main() {
     rep.set("lattice_points", n);
     // colour attribute (values outside [0,1]) on every 5th triangle
     rep.merge(par_range(&cfg, n * n * n / 5, |j, r| { let i = j * 5 + j % 5; check_color_attr(&[pts[(i % n) as usize], pts[(i / n % n) as usize], pts[(i / n / n) as usize]], r) }));
+    // an off-lattice family: non-dyadic coordinates, unequal w of both signs (nothing lands exactly on a plane or at t = 1/2)
+    {
+        let (c, w): (Vec<f32>, Vec<f32>) = if quick { (vec![-1.3, 0.3, 0.7], vec![0.9, -0.6]) } else { (vec![-1.7, -1.3, -0.45, 0.3, 0.7, 1.9], vec![0.9, -0.6, 1.7, 0.13]) };
+        let mut off: Vec<P4> = vec![];
+        for &x in &c { for &y in &c { for &z in &c { for &ww in &w { off.push([x, y * 1.1, z * 0.93, ww]); } } } }
+        let no = off.len() as u64;
+        rep.set("off_lattice_points", no);
+        rep.merge(par_range(&cfg, no * no * no, |i, r| { let t = [off[(i % no) as usize], off[(i / no % no) as usize], off[(i / no / no) as usize]]; check_single(&t, r); if i % 7 == 0 { check_color_attr(&t, r); } }));
+    }
     // magnitude families: the whole lattice (with vertices a hair outside / inside the planes) scaled by 2^-12 and 2^-20
     let near: Vec<P4> = {
         let e = 1.0f32 + 1.0 / 65536.0;
@@ -262,6 +271,6 @@ fn main() {
     }
     rep.sample(0, || obj! {"triangle" => vec![vec![-2.0f32, 1.0, -0.5, 2.0], vec![1.0, 1.0, 1.0, -1.0], vec![-0.5, -2.0, 1.0, 1.0]], "attributes" => "barycentric unit vectors + scalar (3,-7,11)"});
     rep.finish(&cfg, "exploration",
-        "every ordered triple of a clip-space point lattice (x,y,z in C, w in W incl. negative w; thorough adds on-plane values) is clipped singly, and a second lattice with coordinates 2^-16 inside/outside the planes at scales 1, 2^-12 and 2^-20; every 5th triangle also with a Color3f attribute whose channels lie outside [0,1]; per output vertex: position == affine combination given by the carried barycentric attribute (so the attribute field is intact), scalar attribute likewise, inside triangle and frustum; outputs keep the input's orientation in the barycentric chart, their areas sum to the area of the exact visible polygon (vertex enumeration over the 9 bounding lines, f64 on dyadic data; judged between the polygons of the frustum shrunk and grown by 2^-21 of the coordinate magnitude, which differ only where an edge runs almost inside a plane) and a 24x24 chart sample grid finds every interior point in exactly one output; trivially inside => unchanged bit-for-bit, wholly outside one plane => nothing; batches: every pair and (quick: a subset of, thorough: every) triple from a 96-triangle pool (32 of them needing clipping yet vanishing entirely) clipped in one call == concatenation of single results. non-trivial = genuinely clipped triangle with positive visible area.",
+        "every ordered triple of a clip-space point lattice (x,y,z in C, w in W incl. negative w; thorough adds on-plane values) is clipped singly, as is an off-lattice family (non-dyadic coordinates, unequal w of both signs), and a second lattice with coordinates 2^-16 inside/outside the planes at scales 1, 2^-12 and 2^-20; every 5th triangle also with a Color3f attribute whose channels lie outside [0,1]; per output vertex: position == affine combination given by the carried barycentric attribute (so the attribute field is intact), scalar attribute likewise, inside triangle and frustum; outputs keep the input's orientation in the barycentric chart, their areas sum to the area of the exact visible polygon (vertex enumeration over the 9 bounding lines, f64 on dyadic data; judged between the polygons of the frustum shrunk and grown by 2^-21 of the coordinate magnitude, which differ only where an edge runs almost inside a plane) and a 24x24 chart sample grid finds every interior point in exactly one output; trivially inside => unchanged bit-for-bit, wholly outside one plane => nothing; batches: every pair and (quick: a subset of, thorough: every) triple from a 96-triangle pool (32 of them needing clipping yet vanishing entirely) clipped in one call == concatenation of single results. non-trivial = genuinely clipped triangle with positive visible area.",
         &["tolerances 1e-5 relative to the coordinate scale; zero-area outputs tolerated", "lattice, not all floats"]);
 }
